@@ -152,21 +152,32 @@ def load_findings():
     return fs
 
 
-def shrink(prop, script, kind, runner, fixed=1):
-    """greedy delta debugging on op lines (first `fixed` lines stay)"""
+def shrink(prop, script, kind, runner, fixed=1, budget=120):
+    """delta debugging on op lines (first `fixed` lines stay): halves first, then single lines;
+    at most `budget` re-executions"""
     cur = list(script)
-    changed = True
-    rounds = 0
-    while changed and rounds < 6:
-        changed = False
-        rounds += 1
-        i = len(cur) - 1
-        while i >= fixed:
-            cand = cur[:i] + cur[i + 1:]
-            if len(cand) >= fixed and runner(cand)["kind"] == kind:
+    runs = [0]
+
+    def still(cand):
+        if runs[0] >= budget or len(cand) < fixed:
+            return False
+        runs[0] += 1
+        return runner(cand)["kind"] == kind
+
+    # drop the tail behind the failing op, then chunks of decreasing size
+    chunk = max(1, (len(cur) - fixed) // 2)
+    while chunk >= 1 and runs[0] < budget:
+        i = len(cur) - chunk
+        progressed = False
+        while i >= fixed and runs[0] < budget:
+            cand = cur[:i] + cur[i + chunk:]
+            if still(cand):
                 cur = cand
-                changed = True
-            i -= 1
+                progressed = True
+            i -= chunk
+        if chunk == 1 and not progressed:
+            break
+        chunk = chunk // 2 if chunk > 1 else (1 if progressed else 0)
     return cur
 
 
@@ -195,8 +206,14 @@ class Check:
             self.drvs[q.driver] = build.build_driver(q.driver, self.objdir, cxx=getattr(q, "cxx", False),
                                                      extra=getattr(q, "link_extra", ()))
         self.drv = self.drvs[p.driver]
+        self.gen_error = None
         if hasattr(p, "generate"):
-            p.generate(self)
+            try:
+                p.generate(self)
+            except build.BuildError as e:
+                # the translator no longer understands the source: the tie is broken, but the model built from
+                # the last good translation still runs, so the search for a failing input goes on
+                self.gen_error = str(e)
         exes = sorted({"mm_" + q.area for q in self.parts()})
         ok, out = build.lake_build(["MptModel.Props." + p.id] + exes)
         self.lake_ok, self.lake_out = ok, out
@@ -314,9 +331,10 @@ class Check:
                         if hit[0] not in self.known_hits:
                             self.known_hits.append(hit[0])
                         continue
-                    if len(self.violations) < 40:
+                    nkind = len([v for v in self.violations if v[2] == res["kind"]])
+                    if nkind < 8:
                         small = script
-                        if len(self.violations) < 3:
+                        if nkind < 2:
                             small = shrink(p, script, res["kind"], lambda sc: self.classify(sc, part), fixed=getattr(p, "fixed_lines", 1))
                             res2 = self.classify(small, part)
                             if res2["kind"] == res["kind"]:
@@ -343,12 +361,14 @@ class Check:
                  "trusted_base": ["Lean 4.33.0 kernel", "axioms: propext, Classical.choice, Quot.sound (per theorem, see axioms)",
                                   "correspondence harness (differential execution of model and code)"] + list(getattr(p, "trusted", []))}
         proof_broken = None
+        if self.gen_error:
+            proof_broken = "translator error (model no longer regenerated from the source):\n" + self.gen_error[:3000]
         if not self.lake_ok:
             proof_broken = "lake build failed:\n" + self.lake_out[-3000:]
             a = {"theorems": [], "bad": [], "axioms": {}, "locked": []}
         else:
             a = audit(p)
-            if a["bad"]:
+            if a["bad"] and not proof_broken:
                 proof_broken = "proof audit failed:\n" + "\n".join("%s: %s" % b for b in a["bad"])
             if self.tier == "thorough" and not proof_broken:
                 r = subprocess.run(["lake", "env", "leanchecker", "MptModel.Props." + p.id], cwd=build.LEAN,
